@@ -44,6 +44,56 @@ class _Shim:
     def __getattr__(self, n):
         return getattr(self._real, n)
 
+    def __call__(self, *a, **kw):
+        ctor = self.__dict__.get("_ctor")
+        return ctor(*a, **kw) if ctor else self._real(*a, **kw)
+
+
+def fake_timer_class(clock):
+    """wpilib.Timer objects (frc/Timer.cpp: start time + accumulated time + running flag) on the injected clock, so that
+    code which keeps a Timer instance instead of reading getFPGATimestamp() is driven by the same case times"""
+
+    class FakeTimer:
+        def __init__(self):
+            self._start, self._acc, self._running = clock(), 0.0, False
+
+        def get(self):
+            return self._acc + (clock() - self._start) if self._running else self._acc
+
+        def reset(self):
+            self._acc, self._start = 0.0, clock()
+
+        def start(self):
+            if not self._running:
+                self._start, self._running = clock(), True
+
+        def restart(self):
+            if self._running:
+                self.stop()
+            self.reset()
+            self.start()
+
+        def stop(self):
+            if self._running:
+                self._acc, self._running = self.get(), False
+
+        def hasElapsed(self, period):
+            return self.get() >= period
+
+        def advanceIfElapsed(self, period):
+            if self.get() >= period:
+                self._start += period
+                return True
+            return False
+
+        def isRunning(self):
+            return self._running
+
+        getFPGATimestamp = staticmethod(clock)
+        getTimestamp = staticmethod(clock)
+
+    return FakeTimer
+
 
 class FakeJoystick:
     def __init__(self, button):
@@ -117,7 +167,8 @@ class Env:
             del sys.modules[m]
         self.sec = 0.0          # FPGA timestamp / monotonic clock, seconds
         self.us = 0             # FPGA time, microseconds
-        timer = _Shim(wpilib.Timer, getFPGATimestamp=lambda: self.sec)
+        timer = _Shim(wpilib.Timer, getFPGATimestamp=lambda: self.sec, getTimestamp=lambda: self.sec,
+                      _ctor=fake_timer_class(lambda: self.sec))
         rc = _Shim(wpilib.RobotController, getFPGATime=lambda: self.us)
         self.wp = _Shim(wpilib, Timer=timer, RobotController=rc)
         self.tm = _Shim(real_time, monotonic=lambda: self.sec)
@@ -169,9 +220,9 @@ def drive_toggle(env, case, probe=False):
     latch = len(case["h"]) % 2 == 0
     js = LatchJoystick(1) if latch else FakeJoystick(1)
     if p is None:
-        tg = env.toggle.Toggle(js, 1)
+        tg = _new(lambda: env.toggle.Toggle(js, 1))
     else:
-        tg = env.toggle.Toggle(js, 1, _period_arg(p, case.get("period_int", False)))
+        tg = _new(lambda: env.toggle.Toggle(js, 1, _period_arg(p, case.get("period_int", False))))
     res, probes = [], []
     for k, (t, lvl, acc) in enumerate(case["h"]):
         env.sec = t / TPS
@@ -202,7 +253,7 @@ def _acc(tg, acc):
 
 def drive_debouncer(env, case, probe=False):
     js = FakeJoystick(2)
-    bd = env.debouncer.ButtonDebouncer(js, 2, _period_arg(case["period"], case.get("period_int", False)))
+    bd = _new(lambda: env.debouncer.ButtonDebouncer(js, 2, _period_arg(case["period"], case.get("period_int", False))))
     res = []
     for op in case["h"]:
         if op[0] == "set":
@@ -217,8 +268,8 @@ def drive_debouncer(env, case, probe=False):
 
 
 def drive_filter(env, case, probe=False):
-    f = env.pfilter.PeriodicFilter(_period_arg(case["period"], case.get("period_int", False)),
-                                   bypass_level=case["bypass"])
+    f = _new(lambda: env.pfilter.PeriodicFilter(_period_arg(case["period"], case.get("period_int", False)),
+                                                bypass_level=case["bypass"]))
     res = []
     # in a logging chain one LogRecord object goes through every filter on its way (the logger's, then each handler's): in
     # every other case a second PeriodicFilter with another period sees each record first -- its verdict is its own business
@@ -240,7 +291,7 @@ def drive_filter(env, case, probe=False):
 def drive_watchdog(env, case, probe=False):
     """results: None | bool (isExpired) | int (number of warnings logged by printIfExpired)"""
     env.us = 0
-    wd = env.watchdog.SimpleWatchdog(case["timeout"] / 1e6)
+    wd = _new(lambda: env.watchdog.SimpleWatchdog(case["timeout"] / 1e6))
     if hasattr(wd, "_get_time"):
         wd._get_time = lambda: env.us
     res, probes = [], []
@@ -287,8 +338,24 @@ def drive_watchdog(env, case, probe=False):
 DRIVE = {"toggle": drive_toggle, "debouncer": drive_debouncer, "filter": drive_filter, "watchdog": drive_watchdog}
 
 
+class _CtorFailed(Exception):
+    pass
+
+
+def _new(f):
+    """constructing the object under valid arguments: an exception here is an observation too (every call of the
+    history then has nothing to answer with), not a harness failure"""
+    try:
+        return f()
+    except Exception as e:
+        raise _CtorFailed(type(e).__name__)
+
+
 def drive(env, case, probe=False):
-    return DRIVE[case["kind"]](env, case, probe)
+    try:
+        return DRIVE[case["kind"]](env, case, probe)
+    except _CtorFailed as e:
+        return [("exc", str(e))] * len(case["h"]), []
 
 
 def has_exc(res):
